@@ -19,16 +19,17 @@ import (
 )
 
 var (
-	Cur       [64]byte // the secret of this child
-	Out       [128]byte
-	pts       []*curve.EdwardsPoint
-	rpts      []*curve.RistrettoPoint
-	many      []*curve.EdwardsPoint
-	pubU      [32]byte
-	tbl       [256]byte
-	otherPriv ed25519.PrivateKey
-	srCtx     *sr25519.SigningContext
-	sinkBool  [4]bool
+	Cur         [64]byte // the secret of this child
+	Out         [128]byte
+	pts         []*curve.EdwardsPoint
+	rpts        []*curve.RistrettoPoint
+	many        []*curve.EdwardsPoint
+	pubU        [32]byte
+	tbl         [256]byte
+	otherPriv   ed25519.PrivateKey
+	srCtx       *sr25519.SigningContext
+	customTable *curve.EdwardsBasepointTable
+	sinkBool    [4]bool
 )
 
 type fixedReader struct{}
@@ -254,6 +255,59 @@ var Ops = map[string]func(){
 		pi, _ := ecvrf.ProveWithAddedRandomness(fixedReader{}, ed25519.NewKeyFromSeed(Cur[:32]), []byte("alpha"))
 		put(pi)
 	},
+	// more secret-handling entry points
+	"sr25519.NewSecretKeyFromEd25519Bytes+PublicKey": func() {
+		var b [64]byte
+		copy(b[:], Cur[:])
+		b[0] &= 248
+		b[31] &= 63
+		b[31] |= 64
+		sk, err := sr25519.NewSecretKeyFromEd25519Bytes(b[:])
+		if err == nil {
+			pk, _ := sk.PublicKey().MarshalBinary()
+			put(pk)
+		}
+	},
+	"EdwardsBasepointTable(custom).Mul": func() { putE(curve.NewEdwardsPoint().MulBasepoint(customTable, sc(Cur[:32]))) },
+	"RistrettoPoint.ConditionalSelect": func() {
+		p := curve.NewRistrettoPoint()
+		p.ConditionalSelect(rpts[0], rpts[1], int(Cur[0]&1))
+		b, _ := p.MarshalBinary()
+		put(b)
+	},
+	"CompressedRistretto.Equal/MontgomeryPoint.Equal": func() {
+		var a, b curve.CompressedRistretto
+		var m, n curve.MontgomeryPoint
+		copy(a[:], Cur[:32])
+		copy(b[:], Cur[32:])
+		copy(m[:], Cur[:32])
+		copy(n[:], Cur[32:])
+		Out[0] = byte(a.Equal(&b)) | byte(m.Equal(&n))<<1
+	},
+	"scalar.Product/Sum": func() {
+		ss := scalars(4)
+		scalar.New().Product(ss).ToBytes(Out[:32])
+		scalar.New().Sum(ss).ToBytes(Out[32:64])
+	},
+	"field.BatchInvert": func() {
+		a, b, c := fe(Cur[:32]), fe(Cur[32:]), fe(Cur[16:48])
+		field.BatchInvert([]*field.Element{a, b, c})
+		a.ToBytes(Out[:32])
+	},
+	"field.Pow2k/Square2/Mul121666/SetBytesWide": func() {
+		var o, w field.Element
+		o.Pow2k(fe(Cur[:32]), 5)
+		o.Square2(&o)
+		o.Mul121666(&o)
+		w.SetBytesWide(Cur[:64])
+		o.Add(&o, &w)
+		o.ToBytes(Out[:32])
+	},
+	"ecvrf.Prove_v10": func() { put(ecvrf.Prove_v10(ed25519.NewKeyFromSeed(Cur[:32]), []byte("alpha"))) },
+	"ed25519.PrivateKey.Sign(crypto.Hash(0) opts)": func() {
+		s, _ := ed25519.NewKeyFromSeed(Cur[:32]).Sign(nil, msgHello, crypto.Hash(0))
+		put(s)
+	},
 	// positive controls: must be flagged
 	"control.leakyBranch": func() {
 		// secret-dependent branch around a library call: visible to the trace monitor and the block-counter monitor
@@ -331,6 +385,7 @@ func Init(big bool) {
 	}
 	otherPriv = ed25519.NewKeyFromSeed(bytes.Repeat([]byte{7}, 32))
 	srCtx = sr25519.NewSigningContext([]byte("ctx"))
+	customTable = curve.NewEdwardsBasepointTable(pts[2])
 	graftInit()
 }
 
